@@ -75,11 +75,34 @@ def expected (env : Env) (resp : Expr) : M Expected := do
     | _ => .error (.unmodelled "call response")
   | _ => .error (.unmodelled "response form")
 
+/-- Prediction: a `prop(y, n)` response evaluated on a *new* frame reports the trials column the
+expression denotes on that frame — the column `n` of the new frame, or the constant broadcast to the
+row count of the **new** frame (whatever the row count at training was).  Only the trials argument
+is looked at: a prediction frame need not carry the successes. -/
+def expectedTrials (env : Env) (resp : Expr) : M (List Entry) := do
+  match resp with
+  | .call (.variable c) _ as _ =>
+    if c.lexeme == "p" || c.lexeme == "prop" || c.lexeme == "proportion" then
+      match Spec.C06.argExprs as with
+      | [_, t] => do
+        let (tv, _) ← posOnly (evalArg env t none)
+        match tv with
+        | .vec ts _ => pure ts
+        | .num q _ => pure (List.replicate env.frame.nrows (some q))
+        | _ => .error (.unmodelled "prop arguments")
+      | _ => .error (.unmodelled "prop arity")
+    else .error (.unmodelled "not a proportion response")
+  | _ => .error (.unmodelled "not a proportion response")
+
 def matEq (a b : Matrix) : Bool :=
   a.length == b.length &&
   (List.zipWith (fun ra rb => ra.length == rb.length && (List.zipWith closeE ra rb).all id) a b).all id
 
 def holds (e : Expected) (m : Matrix) (levels : Option (List String)) (kind : String) : Bool :=
   matEq e.matrix m && e.levels == levels && e.kind == kind
+
+/-- the values returned by `response.evaluate_new_data(new)` are the expected trials, one per row -/
+def holdsTrials (expectedCol returned : List Entry) : Bool :=
+  matEq (expectedCol.map (fun x => [x])) (returned.map (fun x => [x]))
 
 end FormulaeModel.Spec.C15
